@@ -103,6 +103,7 @@ fn handshake(s: &mut Sim, p: &Params) -> bool {
     let r = s.poll_ctx();
     let ok = r.iter().any(|v| v["kind"] == "ConnectRsp");
     s.wire.packets.clear();
+    s.wire.raw.clear();
     s.ctx_results.clear();
     s.ctx_returned = false;
     s.command(Cmd::Run);
